@@ -218,7 +218,7 @@ func c11(c *core.Ctx) {
 		c.DistinctStr(fmt.Sprintf("ticker-collector-%d", i))
 	})
 	// random sizes
-	c.Section("schedule-walks-random", c.N(300, 20000), func(_ int64, r *gen.Rand) {
+	c.Section("schedule-walks-random", c.N(300, 200000), func(_ int64, r *gen.Rand) {
 		size := r.PickInt([]int{20 + r.Intn(3000), 2040 + r.Intn(20), 20 + r.Intn(65536)})
 		rto := time.Duration(1 + r.Intn(1000000000))
 		nr := r.Chance(1, 4)
@@ -229,7 +229,7 @@ func c11(c *core.Ctx) {
 		c11Walk(c, size, rto, nr, interferes[r.Intn(len(interferes))], r.Intn(n+1))
 	})
 	// histories with SetRTO and mixed sizes against the model (write counts after every event)
-	depth := int(c.N(4, 5))
+	depth := int(c.N(4, 6))
 	prefixes := historyPrefixes(2)
 	c.Section("histories-with-setrto", int64(len(prefixes)), func(i int64, _ *gen.Rand) {
 		st := newSeqStats()
